@@ -210,9 +210,17 @@ def pair_reset(ctx, i, spec, n, rng, case):
         # the control is an argument of each call: one segment of the block runs WITHOUT it, on the same solver
         block[rng.randrange(2)]['control'] = False
         ctx.count('blocks_mixing_controlled_and_uncontrolled_runs')
+    if cont and not spec.get('rules') and rng.random() < 0.5:
+        # the user changes the duty cycle by hand between the two runs of the block (both times): after the reset the first
+        # segment must run at the FIRST duty cycle again
+        block.insert(1, {'op': 'setpwm', 'value': rng.choice([0.6, -1, 0.3, 0])})
+        ctx.count('blocks_with_a_manual_duty_cycle_change')
     new_solver = rng.random() < 0.5
+    new_pt = not spec.get('rules') and rng.random() < 0.3
+    if new_pt:
+        ctx.count('resets_through_a_new_powertrain_object')
     sp = copy.deepcopy(spec)
-    sp['schedule'] = block + [{'op': 'reset'}, {'op': 'reapply'}] + ([{'op': 'newsolver'}] if new_solver else []) + copy.deepcopy(block)
+    sp['schedule'] = block + [{'op': 'newpowertrain' if new_pt else 'reset'}, {'op': 'reapply'}] + ([{'op': 'newsolver'}] if new_solver else []) + copy.deepcopy(block)
     # variant: the user re-applies position and speed only and relies on reset() to restore the duty cycle. Sound only when
     # the restored value (first *recorded* duty cycle, i.e. after control) is lock-equivalent to the one the first run started
     # with: same sign class, or no self-locking mating (judged below, after the first run is known).
